@@ -4,6 +4,7 @@ from concurrent.futures import ThreadPoolExecutor
 from .. import core, pipe, metagen as MG
 from .c03 import report_compile_failures
 
+from ..core import COMMON_DIMENSIONS
 PROP = "C13"
 SIZES = dict(quick=dict(sample=180, mcL=5), thorough=dict(sample=3000, mcL=6))
 
@@ -58,6 +59,8 @@ def run(tier, seed, rep):
                        "differently named method is a compile failure; every value (every variant, disabled ones included) against every "
                        "is_* predicate and every try_as_*/_ref/_mut method; _mut followed by writes and a direct re-read; distinct = "
                        "(definition, value variant, method variant, mode)")
+    rep.cov["rule"] += ' + a 300-variant enum (values around the multiples of 16 and the tail against every method); one-field tuple variants with a trailing comma'
+    rep.cov["rule"] += COMMON_DIMENSIONS
     rep.cov["samples"] = [e for e in evs if e["op"] == "tryas"][3:6]
     rep.assumptions += ["identifiers with an underscore next to a digit, and identifiers with coinciding snake forms, are outside the domain"]
     return rep
